@@ -216,3 +216,19 @@ def init_qq_obl(timeout=600):
                bounds='precision 0 (no planning loop), io_ratio in [1e-6, 1e9], gain in (0, 1e6), any runtime flags; higher precisions are not symbolically executable',
                stubs=['stage array calloc: typed exactly sized object', 'design functions unreachable on this path (asserted)'],
                funcs=['cr.c:_soxr_init', 'cr.c:_soxr_close', 'fifo.h:fifo_create', 'fifo.h:fifo_reserve'])
+
+
+def dft_obl(L=1, M=1, dbl=0, simd=0, dftlen=32, timeout=600, tiers=('quick', 'thorough')):
+    return Obl(name='dft_stage_L%d_M%d_%s%s_n%d' % (L, M, 'd' if dbl else 'f', 's' if simd else '', dftlen), src='dft_step.c',
+               defs=['-DVF_L=%d' % L, '-DVF_M=%d' % M, '-DVF_DBL=%d' % dbl, '-DVF_SIMD=%d' % simd, '-DVF_DFTLEN=%d' % dftlen], unwind=dftlen + 4,
+               timeout=timeout, tiers=tiers, ndebug=False,
+               desc='dft_stage_fn (cr.c): one call from any stage state in ENV(dft): block bookkeeping, phase carry (at / remM), counts, memory safety; L=%d M=%d %s%s' % (L, M, 'double' if dbl else 'float', ', SIMD-style back end' if simd else ''),
+               bounds='dft_length == %d, L == %d, M == %d constant; filter length 1..dft_length, phases, FIFO fill symbolic' % (dftlen, L, M),
+               stubs=['rdft_cb transforms are no-ops (data only)', 'libc div() model'], funcs=['cr.c:dft_stage_fn', 'fifo.h:fifo_reserve', 'fifo.h:fifo_read', 'fifo.h:fifo_trim_by'])
+
+
+def dft_set(tier):
+    o = [dft_obl(1, 1), dft_obl(1, 3), dft_obl(1, 3, dbl=1), dft_obl(3, 2), dft_obl(2, 1, simd=1), dft_obl(4, 1, dbl=1)]
+    if tier == 'thorough':
+        o += [dft_obl(1, 2, dbl=1, simd=1), dft_obl(3, 1, dbl=1), dft_obl(2, 3), dft_obl(8, 1), dft_obl(1, 1, dbl=1, dftlen=64), dft_obl(1, 5, dbl=1), dft_obl(3, 4, dbl=1, simd=1)]
+    return o
